@@ -19,7 +19,10 @@
 EXTENDS Integers, Sequences, FiniteSets, TLC
 
 CONSTANTS MaxId,      \* max_request_id: ids are 0..MaxId, at most MaxId may be in flight
-          InitFree,   \* size of the initial id deque (ids 0..InitFree-1); more are created on demand
+          InitFree,   \* harness only: size the real id deque is shrunk to, so that its on-demand growth is exercised
+          AnyId,      \* TRUE: get_request_id may hand out ANY available id (all the property says; used when recorded
+                      \* runs are validated).  FALSE: the least available id - a symmetry reduction for the exhaustive
+                      \* runs (no action looks at the numeric value of an id), replayed modulo a renaming of ids
           Reqs,       \* request names
           CPReqs,     \* the requests that use DSE continuous paging (several pages arrive on one stream)
           MaxPages,   \* a continuous-paging answer has 1..MaxPages pages
@@ -35,8 +38,10 @@ ASSUME InitFree \in 1..(MaxId + 1)
 Ids  == 0..MaxId
 None == "none"
 
-VARIABLES free,      \* Seq(Ids): the deque of recycled / not yet used ids (request_ids)
-          highest,   \* highest_request_id
+VARIABLES avail,     \* the ids get_request_id may still hand out: request_ids (the deque of recycled / pre-made ids)
+                     \* together with the ids above highest_request_id, AS A SET - which of them is handed out next and
+                     \* how the pool of ids is represented is not part of the property (a first version of this module
+                     \* copied the FIFO deque and rejected a driver that pre-allocates ids in blocks: DESIGN.md 11)
           inflight,  \* in_flight (ids in use, orphaned ones included)
           reqs,      \* _requests: function from a subset of Ids to the request registered there
           orphans,   \* orphaned_request_ids
@@ -53,7 +58,7 @@ VARIABLES free,      \* Seq(Ids): the deque of recycled / not yet used ids (requ
           defunct, closed,
           writable,  \* _socket_writable: FALSE while the reactor's write buffer is full (send_msg raises ConnectionBusy)
           act        \* last action, for replay
-vars == <<free, highest, inflight, reqs, orphans, srv, st, ph, rid, got, errs, cps, pages, cperr, defunct, closed, writable, act>>
+vars == <<avail, inflight, reqs, orphans, srv, st, ph, rid, got, errs, cps, pages, cperr, defunct, closed, writable, act>>
 
 Range(f) == {f[x] : x \in DOMAIN f}
 SeqSet(s) == {s[i] : i \in 1..Len(s)}
@@ -61,8 +66,7 @@ Drop(f, k) == [x \in DOMAIN f \ {k} |-> f[x]]
 A(name, r, id) == [name |-> name, r |-> r, id |-> id]
 
 Init ==
-    /\ free = [i \in 1..InitFree |-> i - 1]
-    /\ highest = InitFree - 1
+    /\ avail = Ids
     /\ inflight = 0
     /\ reqs = <<>>
     /\ orphans = {}
@@ -87,10 +91,9 @@ Borrow(r) ==
     /\ st[r] = "new"
     /\ inflight < MaxId
     /\ ~Dead                                   \* a dead connection is not handed out (pool drops it)
-    /\ LET id == IF free # <<>> THEN Head(free) ELSE highest + 1 IN
-       /\ id <= MaxId                           \* the code's assert; IdBound checks it is never the blocker
-       /\ free' = IF free # <<>> THEN Tail(free) ELSE free
-       /\ highest' = IF free # <<>> THEN highest ELSE highest + 1
+    /\ \E id \in avail :                         \* none available: the code's assert refuses (NoIdExhaustion: never the blocker)
+       /\ AnyId \/ \A j \in avail : id <= j
+       /\ avail' = avail \ {id}
        /\ rid' = [rid EXCEPT ![r] = id]
        /\ act' = A("Borrow", r, id)
     /\ inflight' = inflight + 1
@@ -105,20 +108,20 @@ Send(r) ==
        THEN \* ConnectionShutdown raised; _query returns the connection to the pool (in_flight -= 1)
             /\ st' = [st EXCEPT ![r] = "refused"]
             /\ inflight' = inflight - 1
-            /\ UNCHANGED <<reqs, free, ph>>
+            /\ UNCHANGED <<reqs, avail, ph>>
        ELSE IF ~writable
        THEN \* ConnectionBusy: the request moves on to the next host; the unused stream id and the
             \* capacity it took are given back (the connection is alive and keeps being used)
             /\ st' = [st EXCEPT ![r] = "refused"]
             /\ inflight' = inflight - 1
-            /\ free' = Append(free, rid[r])
+            /\ avail' = avail \cup {rid[r]}
             /\ UNCHANGED <<reqs, ph>>
        ELSE /\ st' = [st EXCEPT ![r] = "sending"]
             /\ reqs' = (rid[r] :> r) @@ reqs
             /\ ph' = [ph EXCEPT ![r] = "encode"]
-            /\ UNCHANGED <<inflight, free>>
+            /\ UNCHANGED <<inflight, avail>>
     /\ act' = A("Send", r, rid[r])
-    /\ UNCHANGED <<highest, orphans, srv, rid, got, errs, cps, pages, cperr, defunct, closed, writable>>
+    /\ UNCHANGED <<orphans, srv, rid, got, errs, cps, pages, cperr, defunct, closed, writable>>
 
 (* second half of send_msg: the encoded frame is pushed.  If the connection failed meanwhile the handler *)
 (* was already errored by FailAll (it was registered) and the bytes go nowhere.                          *)
@@ -130,7 +133,7 @@ Push(r) ==
             /\ srv' = srv \cup {<<rid[r], r>>}
        ELSE UNCHANGED <<st, srv>>
     /\ act' = A("Push", r, rid[r])
-    /\ UNCHANGED <<free, highest, inflight, reqs, orphans, rid, got, errs, cps, pages, cperr, defunct, closed, writable>>
+    /\ UNCHANGED <<avail, inflight, reqs, orphans, rid, got, errs, cps, pages, cperr, defunct, closed, writable>>
 
 (* Connection.process_msg for the answer to request q on stream id (whole callback, loop thread) *)
 Respond(id, q) ==
@@ -151,8 +154,8 @@ Respond(id, q) ==
           ELSE /\ UNCHANGED <<reqs, got, st>>
                /\ inflight' = inflight - released
                /\ act' = A("RespondLate", q, id)
-    /\ free' = Append(free, id)
-    /\ UNCHANGED <<highest, ph, rid, errs, cps, pages, cperr, defunct, closed, writable>>
+    /\ avail' = avail \cup {id}
+    /\ UNCHANGED <<ph, rid, errs, cps, pages, cperr, defunct, closed, writable>>
 
 (* Continuous paging (DSE): the node streams several pages on the request's stream.  The first page goes *)
 (* to the request's handler, which returns the connection to the pool (in_flight -= 1) and registers a   *)
@@ -181,8 +184,8 @@ RespondPage(id, q, last) ==
                /\ cps' = IF last THEN cps ELSE (id :> r) @@ cps
                /\ act' = A(IF last THEN "OnlyPage" ELSE "FirstPage", r, id)
             /\ inflight' = inflight - 1
-    /\ free' = IF last THEN Append(free, id) ELSE free
-    /\ UNCHANGED <<highest, orphans, ph, rid, errs, cperr, defunct, closed, writable>>
+    /\ avail' = IF last THEN avail \cup {id} ELSE avail
+    /\ UNCHANGED <<orphans, ph, rid, errs, cperr, defunct, closed, writable>>
 
 (* ResponseFuture._on_timeout (whole callback, loop thread) *)
 Timeout(r) ==
@@ -194,7 +197,7 @@ Timeout(r) ==
     /\ orphans' = orphans \cup {rid[r]}
     /\ st' = [st EXCEPT ![r] = "timedout"]
     /\ act' = A("Timeout", r, rid[r])
-    /\ UNCHANGED <<free, highest, inflight, srv, ph, rid, got, errs, cps, pages, cperr, defunct, closed, writable>>
+    /\ UNCHANGED <<avail, inflight, srv, ph, rid, got, errs, cps, pages, cperr, defunct, closed, writable>>
 
 (* _on_timeout running for a request whose answer was already processed (the timer's cancellation lost the *)
 (* race, or send_request called it): the handler is gone, the stream id belongs to nobody (or was recycled) *)
@@ -204,7 +207,7 @@ TimeoutStale(r) ==
     /\ ~Dead
     /\ rid[r] \notin DOMAIN reqs /\ rid[r] \notin DOMAIN cps
     /\ act' = A("TimeoutStale", r, rid[r])
-    /\ UNCHANGED <<free, highest, inflight, reqs, orphans, srv, st, ph, rid, got, errs, cps, pages, cperr, defunct, closed, writable>>
+    /\ UNCHANGED <<avail, inflight, reqs, orphans, srv, st, ph, rid, got, errs, cps, pages, cperr, defunct, closed, writable>>
 
 (* Connection.defunct / close: every registered handler gets one connection error; the request's     *)
 (* error handling returns the connection to the pool (in_flight -= 1 per errored request).           *)
@@ -218,7 +221,7 @@ FailAll(name, failSessions) ==
     /\ reqs' = <<>>
     /\ srv' = {}                               \* the socket is gone: nothing more will arrive
     /\ act' = A(name, None, -1)
-    /\ UNCHANGED <<free, highest, orphans, ph, rid, got, cps, pages, writable>>
+    /\ UNCHANGED <<avail, orphans, ph, rid, got, cps, pages, writable>>
 
 (* the reactor's write buffer fills up / drains (libev reactor); any thread's send is refused meanwhile *)
 SetWritable(w) ==
@@ -226,7 +229,7 @@ SetWritable(w) ==
     /\ ~Dead /\ writable # w
     /\ writable' = w
     /\ act' = A(IF w THEN "SocketWritable" ELSE "SocketBusy", None, -1)
-    /\ UNCHANGED <<free, highest, inflight, reqs, orphans, srv, st, ph, rid, got, errs, cps, pages, cperr, defunct, closed>>
+    /\ UNCHANGED <<avail, inflight, reqs, orphans, srv, st, ph, rid, got, errs, cps, pages, cperr, defunct, closed>>
 
 SocketError == FailAll("SocketError", TRUE) /\ defunct' = TRUE /\ closed' = TRUE
 Close       == FailAll("Close", CloseFailsSessions) /\ closed' = TRUE /\ UNCHANGED defunct
@@ -245,7 +248,7 @@ Spec == Init /\ [][Next]_vars
 (* C09 *)
 TypeOK ==
     /\ inflight \in 0..(MaxId + 1)
-    /\ highest \in 0..MaxId
+    /\ avail \subseteq Ids
     /\ DOMAIN reqs \subseteq Ids
 
 InUse == {rid[r] : r \in {x \in Reqs : st[x] \in {"borrowed", "sending", "sent"}}} \cup orphans
@@ -253,17 +256,16 @@ InUse == {rid[r] : r \in {x \in Reqs : st[x] \in {"borrowed", "sending", "sent"}
 
 UniqueIds ==
     /\ \A a, b \in Reqs : a # b /\ st[a] \in {"borrowed", "sending", "sent"} /\ st[b] \in {"borrowed", "sending", "sent"} => rid[a] # rid[b]
-    /\ \A i, j \in 1..Len(free) : i # j => free[i] # free[j]
-    /\ ~Dead => SeqSet(free) \cap InUse = {}               \* an id in use is never also available
+    /\ ~Dead => avail \cap InUse = {}                       \* an id in use is never also available
 
 NoCrossTalk == \A r \in Reqs : got[r] \subseteq {r}
 
-IdBound == highest <= MaxId /\ \A r \in Reqs : rid[r] <= MaxId
+IdBound == avail \subseteq Ids /\ \A r \in Reqs : rid[r] <= MaxId
 
 \* the capacity check alone keeps get_request_id inside the id space (streams held by continuous-paging
 \* sessions are not counted in in_flight, so this is only claimed while no session is open; with sessions the
 \* code's assert refuses the borrow instead - the id bound itself, IdBound, always holds)
-NoIdExhaustion == (~Dead /\ inflight < MaxId /\ cps = <<>>) => (free # <<>> \/ highest < MaxId)
+NoIdExhaustion == (~Dead /\ inflight < MaxId /\ cps = <<>>) => avail # {}
 
 Accounting ==
     ~Dead => inflight = Cardinality({r \in Reqs : st[r] \in {"borrowed", "sending", "sent"}}) + Cardinality(orphans)
@@ -275,7 +277,7 @@ Recycled == (Quiescent /\ ~Dead) => /\ inflight = 0
                                    /\ orphans = {}
                                    /\ reqs = <<>>
                                    /\ cps = <<>>
-                                   /\ SeqSet(free) = 0..highest
+                                   /\ avail = Ids            \* every id can be handed out again
 
 (* C10 *)
 FailedOnce == \A r \in Reqs : errs[r] <= 1 /\ cperr[r] <= 1
@@ -288,7 +290,7 @@ SendRefusedWhenDead == [][\A r \in Reqs : (Dead /\ st[r] = "borrowed" /\ st'[r] 
 
 \* vacuity witnesses (each must be violated = reachable)
 Witness_LateResponse == act.name # "RespondLate"
-Witness_Grow == ~(highest = MaxId - 1 /\ highest > InitFree - 1)
+Witness_Grow == ~(Cardinality(avail) = 1 /\ ~Dead)     \* all ids but one handed out (the real deque had to grow: InitFree < MaxId)
 Witness_ErroredTwoAtOnce == ~(Cardinality({r \in Reqs : st[r] = "errored"}) >= 2)
 Witness_SessionOpen == cps = <<>>
 Witness_SessionFailed == \A r \in Reqs : cperr[r] = 0
